@@ -70,7 +70,7 @@ CHECKS['C10'] = dict(
 CHECKS['C19'] = dict(
    category='other',
    text='Mixed. Proved on the real code: the tag decorator marks and returns its argument; _run_tests hands unittest the tagged '
-        'loader exactly when tagged or check is set, with the listing flag; TaggedTestLoader.getTestCaseNames offers all tests of a class that carries the tag and otherwise exactly its tagged methods (unittest name discovery abstract). Bounded (labelled): _set_flags_from_argv against a '
+        'loader exactly when tagged or check is set, with the listing flag; TaggedTestLoader.getTestCaseNames offers all tests of a class that carries the tag and otherwise exactly its tagged methods (unittest name discovery abstract); referencepytest.tagged (the pytest route) keeps exactly the tagged tests collected under --tagged, none under --istagged while printing each owner of a tagged test once, and leaves the collection alone otherwise (0..4 collected items, every tagging pattern). Bounded (labelled): _set_flags_from_argv against a '
         'reference parser on every judgeable sequence of <= 3 (quick) / 4 (thorough) tokens from 20 spellings; tag selection and '
         'listing on generated test modules (tagged/untagged methods and classes, inheritance) x 22 argv forms run in-process with a side-effect log.',
    note='Trusted: unittest loader/main semantics. The argv scanner is a per-character string loop outside the SMT subset: bounded only. '
